@@ -3,6 +3,7 @@ import SctpVerif.Proofs.NetSys.PRLost
 import SctpVerif.Proofs.NetSys.PRLostDec
 import SctpVerif.Proofs.NetSys.PRLostGood
 import SctpVerif.Proofs.NetSys.PRLostFwd
+import SctpVerif.Proofs.NetSys.PRFifo
 import SctpVerif.Proofs.NetSys.Proj
 /-!
 # C07 — the composition with FORWARD-TSN: sender half + adversarial network + receiver half (`NetSysPR`)
@@ -346,6 +347,29 @@ theorem C07_netsys_nothing_lost (P : Params) (ops : List Op) (si : BitVec 16)
   exact C07_netsys_nothing_lost_fwdok_partial P ops si (KOf P ops si) hil hifw hme hok hord hsel hN hlen
     (fwdok_of_run P ops hok hu si (by rw [← hl] at hlen; exact hlen) hfifo)
 
+/-- ✱ **`C07_netsys_nothing_lost` with FIFO selection.** The statement of `C07_netsys_nothing_lost` with the two selection
+premises `SelContig` and `FifoU` replaced by `SelFifo` — every gather of the run takes the OLDEST pending chunk, every time —,
+which is what `messagePendingQueuePolicy` does when only ordered chunks are queued (`C17.C17_ordered_only_fifo`; with partially
+reliable ORDERED-only traffic the pending queue still holds ordered chunks only). Both are derived
+(`Proofs/NetSys/PRFifo.lean`): `C01_fifo_tsn_order` — written = moved ++ pending as fragment identities, any policy — makes
+the moves a prefix of the fragments listed message after message, hence message-contiguous, per-stream FIFO, and every fragment
+of an earlier message of the stream sits at a smaller TSN offset. -/
+theorem C07_netsys_nothing_lost_fifo (P : Params) (ops : List Op) (si : BitVec 16)
+    (hil : P.cfg.useInterleaving = false) (hifw : P.cfg.useIForwardTSN = false) (hme : P.maxEntries = 0)
+    (hok : RunOk P ops) (hord : NetSys.OrdOnly ops = true) (hsel : NetSys.SelFifo ops = true)
+    (hN : NetSys.chunksWritten P ops < 2^31) (hlen : (writesOn P si (init P) ops).length < 2^15) :
+    (streamOf P ops si).msgs.map Reasm.Msg.out = writesOn P si (init P) ops ∧
+    ∃ D : List Nat,
+      readsOn P si (init P) ops = D.map (fun k => Reasm.Msg.out ((streamOf P ops si).msg k)) ∧
+      D.Pairwise (· < ·) ∧ (∀ k ∈ D, k < (writesOn P si (init P) ops).length) ∧
+      (readsOn P si (init P) ops).Sublist (writesOn P si (init P) ops) ∧
+      (∀ k, k < (writesOn P si (init P) ops).length → KOf P ops si k = false →
+        (∀ i, i < (streamOf P ops si).nf k → ((streamOf P ops si).dataFrag k i).tsn ∈ pushed P (init P) ops) →
+        k ∈ D ∨ (streamOf P ops si).concSet (k, List.range ((streamOf P ops si).nf k)) ∈
+          (Receiver.qOf (run P (init P) ops).rcv si).ordered) :=
+  C07_netsys_nothing_lost P ops si hil hifw hme hok hord (NetSys.selFifo_selContig_ord P ops hsel hord) hN hlen
+    (NetSys.fifoU_of_selFifo P ops si hil hsel hord hN)
+
 /-! ### non-vacuity of the two theorems above: concrete runs that MEET ALL their hypotheses
 
 The premises `GoodChunkS` / `FwdOk` (incl. `EntOk`) / `hgood` quantify over decompositions of the run; they are exhibited through
@@ -466,6 +490,11 @@ set_option maxRecDepth 1000000 in
 example : KOf PX opsX 2 0 = true ∧ KOf PX opsX 2 1 = true ∧ KOf PX opsX 1 0 = false := by decide
 example := C07_netsys_nothing_lost PX opsX 2 rfl rfl rfl okX ordX.1 ordX.2.1 ordX.2.2.1 ordX.2.2.2.1 ordX.2.2.2.2.2.1
 example := C07_netsys_nothing_lost PX opsX 1 rfl rfl rfl okX ordX.1 ordX.2.1 ordX.2.2.1 ordX.2.2.2.2.1 ordX.2.2.2.2.2.2
+
+-- `C07_netsys_nothing_lost_fifo` on `opsX`: its gathers select the oldest pending chunk (`SelFifo`), all other premises as above
+example : NetSys.SelFifo opsX = true := by decide
+example := C07_netsys_nothing_lost_fifo PX opsX 2 rfl rfl rfl okX ordX.1 (by decide) ordX.2.2.1 ordX.2.2.2.1
+example := C07_netsys_nothing_lost_fifo PX opsX 1 rfl rfl rfl okX ordX.1 (by decide) ordX.2.2.1 ordX.2.2.2.2.1
 
 -- test (receive half alone, by evaluation): stream 3, message 0 (one fragment) abandoned and never delivered, message 1 (two
 -- fragments) reliable. The FORWARD-TSN naming (3, SSN 0) arrives FIRST (the stream does not exist yet), then the fragments
